@@ -5,6 +5,8 @@ CONSTANTS
   VarLong = 4
   Padding = TRUE
   RelFpuOK = TRUE
+  Pages = {}
+  PageReset = TRUE
   SelfKinds = {}
   Labels = {"la", "lb"}
   MaxItems = 4
